@@ -58,6 +58,20 @@ desc = {
  "C20b3":("generator resolves default scope treating non_shared deps as contextual","caught"),
  "C20c1":("untyped value services emitted as SetValue","caught"),
  "C20c2":("merge rewritten, scope forgotten","caught"),
+ "C05d1":("--stub switches the whole 'Validate output' step off (scope rule skipped)","missed -> verdict workload also built with --stub"),
+ "C05d2":("AllArgs() rewrite: a later call overwrites an earlier call's dependency metadata","missed -> two-call shape in the exhaustive family"),
+ "C08d1":("fixed temp-file name opened without O_TRUNC/O_EXCL (stale tail from a leftover)","missed -> directory-noise twin (unrelated files next to -o)"),
+ "C08d2":("os.ExpandEnv on -i / -o","missed -> directories named like shell variables (the env twin then sets every variable the run read)"),
+ "C10d1":("sticky stdout error: exit 1 after -o was replaced","not exercised by design until then -> broken-stdout runs judged on status vs file effects only"),
+ "C10d2":("non-regular matches (directory, dangling link) silently skipped","caught"),
+ "C12d1":("'**' glob support compiles character classes into a regexp (panic)","missed -> '**' patterns with odd character classes"),
+ "C12d2":("mergeCalls compares call arguments with == (panic on lists/maps)","missed -> duplicated-declarations family"),
+ "C15d1":("todo services keep their sketched arguments (validators see them)","missed -> placeholders with sketches that refer to undeclared names"),
+ "C15d2":("empty todo message falls back to the default","missed -> empty message in the pool and in the exhaustive configuration; the default must not replace a given message"),
+ "C19d1":("relative patterns joined with cwd and globbed (cwd with glob metacharacters)","missed -> working directories with glob metacharacters"),
+ "C19d2":("make-style up-to-date check by mtimes skips the build","missed -> stale content at -o, inputs older than -o, real executable path"),
+ "C20d1":("scope validation graph built without decorators","caught"),
+ "C20d2":("!tagged bound at compile time (runtime graph loses the tag edge)","caught"),
 }
 base = os.path.join(os.path.dirname(os.path.abspath(__file__)), "..", "seeded")
 print("| id | change | caught now by (first signature, quick tier) | when it arrived |")
